@@ -376,6 +376,25 @@ def child_discipline(req):
     return out, grammar_view(c), c.execution_statistics.n_executions
 
 
+class FileRecorder:
+    """A user's database listener (picklable): appends one line per notification to a file."""
+
+    def __init__(self, path, tag):
+        self.path, self.tag = path, tag
+
+    def __call__(self, x):
+        with open(self.path, "a") as f:
+            f.write(self.tag + "\n")
+
+    @staticmethod
+    def count(path):
+        try:
+            with open(path) as f:
+                return sum(1 for _ in f)
+        except FileNotFoundError:
+            return 0
+
+
 def problem_view(prob, xe):
     """What a user sees of a (restored) problem: the recorded history by look-up, counters, a replayed evaluation."""
     db = prob.database
@@ -393,8 +412,16 @@ def problem_view(prob, xe):
         x0 = prob.design_space.normalize_vect(x0) if prob.objective.expects_normalized_inputs else x0
         prob.objective.evaluate(x0)
         replay = len(db)
+    # the user's listeners travel with the problem: a new point notifies them as it does on the original
+    notified = None
+    rec_path = getattr(prob, "_c20_recorder_path", None)
+    if rec_path is not None and prob.objective.__class__.__name__ == "ProblemFunction":
+        n0 = FileRecorder.count(rec_path)
+        xnew = np.array(xe, dtype=float, copy=True) * 0.5 + 0.123
+        prob.objective.evaluate(xnew)
+        notified = FileRecorder.count(rec_path) - n0
     return {"n": n_before, "lookups": look, "counter": prob.evaluation_counter.current, "value": v, "entries_after_replay": replay,
-            "points": canon(xs)}
+            "points": canon(xs), "listeners_notified_by_a_new_point": notified}
 
 
 def child_problem(req):
@@ -838,6 +865,14 @@ def run_functions(ctx):
         from gemseo.algos.opt.factory import OptimizationLibraryFactory
 
         OptimizationLibraryFactory().execute(prob, algo_name="SLSQP", max_iter=4)
+    with_listeners = moment >= 1 and t.flag(0.5, "user_listeners")
+    if with_listeners:
+        # listeners registered by the user (a recorder, a stopping rule, the history backup) are part of the problem
+        rec_path = str(ctx.scratch / "notifications.txt")
+        prob.database.add_store_listener(FileRecorder(rec_path, "store"))
+        prob.database.add_new_iter_listener(FileRecorder(rec_path, "new_iter"))
+        prob._c20_recorder_path = rec_path
+        ctx.probe("problem_with_user_listeners")
     if t.flag(0.3, "other_interpreter"):
         # the problem travels as bytes to an interpreter started with another hash seed (a later session)
         other_seed = 1 + t.choice(40, "other_hash_seed")
@@ -875,6 +910,15 @@ def run_functions(ctx):
     v1, v2 = prob.objective.evaluate(xe.copy()), c.objective.evaluate(xe.copy())
     if not np.array_equal(np.asarray(v1), np.asarray(v2)):
         ctx.violate("C20.behaves_like_original", label, f"objective differs after restoring: {v1} vs {v2}")
+    if with_listeners:
+        rec_path = prob._c20_recorder_path
+        deltas = []
+        for obj, shift in ((prob, 0.123), (c, 0.321)):
+            n0_ = FileRecorder.count(rec_path)
+            obj.objective.evaluate(np.array(xe, dtype=float) * 0.5 + shift)
+            deltas.append(FileRecorder.count(rec_path) - n0_)
+        if deltas[0] != deltas[1]:
+            ctx.violate("C20.behaves_like_original", label + " listeners", f"a new point notified {deltas[0]} user listeners of the original problem and {deltas[1]} of the restored one")
     n_o = len(prob.database)
     xn = xe * 0.9 + 0.01
     c.objective.evaluate(xn)
